@@ -329,6 +329,17 @@ func (w *world) dump() Sx {
 	return L(L(U(fs), U(fe)), L(U(cs), U(ce)), L(U(us), U(ue)), fx, cm, up)
 }
 
+// ranges of a rendered dump
+func rangesOf(d string) (fs, fe, cs, ce, us, ue uint64) {
+	x, err := Parse(d)
+	if err != nil {
+		return
+	}
+	l := AsList(x)
+	f, c, u := AsList(l[0]), AsList(l[1]), AsList(l[2])
+	return AsU64(f[0]), AsU64(f[1]), AsU64(c[0]), AsU64(c[1]), AsU64(u[0]), AsU64(u[1])
+}
+
 func popcount(b [64]byte) int {
 	n := 0
 	for _, x := range b {
@@ -555,8 +566,12 @@ func run(c Sx) Result {
 		default:
 			shape("op kind")
 		}
+		_, fe0, _, ce0, _, ue0 := rangesOf(prev)
 		d := w.dump()
 		prev = String(d)
+		if _, fe1, _, ce1, _, ue1 := rangesOf(prev); fe1 < fe0 || ce1 < ce0 || ue1 < ue0 {
+			tags["rollback"] = true
+		}
 		obs = append(obs, L(I(int64(code)), d))
 		for _, f := range w.oracle(mode) {
 			fails = append(fails, fmt.Sprintf("after op %d: %s", i, f))
@@ -915,7 +930,7 @@ func scenario(r *Rng, emit func(Sx)) {
 			var u SL
 			nc := Sx(nil)
 			forged := true
-			switch r.Intn(12) {
+			switch r.Intn(14) {
 			case 0: // too few signers
 				if threshold <= 1 {
 					s.count = 0
@@ -984,6 +999,25 @@ func scenario(r *Rng, emit func(Sx)) {
 			case 10: // version confusion
 				u = g.update(s)
 				u[0] = Bool(!s.old)
+			case 12: // finalized header of another period
+				s.finalized = true
+				u = g.update(s)
+				fh := cloneL(AsList(u[4])[0].(SL))
+				fh[0] = U(AsU64(fh[0]) + params.SyncPeriodLength)
+				u[4] = L(fh)
+			case 13: // tampered / short / long finality branch
+				s.finalized = true
+				u = g.update(s)
+				br := cloneL(u[5].(SL))
+				switch r.Intn(3) {
+				case 0:
+					br[r.Intn(len(br))] = g.fresh()
+				case 1:
+					br = br[:len(br)-1]
+				default:
+					br = append(br, g.fresh())
+				}
+				u[5] = br
 			case 11: // genuine update, forged next committee handed over (only the committee is forged)
 				u = g.update(s)
 				forged = false
@@ -1097,15 +1131,18 @@ func genAll(r *Rng, tier string, emit func(Sx)) {
 	if tier == "thorough" {
 		n = 12000
 	}
+	// hxlib seeds n and n+1 give the same stream shifted by one draw: key every scenario
+	// with the first draw so that different seeds give unrelated scenarios
+	key := r.U64()
 	for i := 0; i < n; i++ {
-		scenario(r.Fork(), emit)
+		scenario(NewRng(r.U64()^(key<<17|key>>47)*0xD6E8FEB86659FD93), emit)
 	}
 }
 
 func main() {
 	Main(Family{
 		ID: "C53",
-		Rule: "each case is one scenario over a fresh light.CommitteeChain (dummy test verifier, memory DB, simulated clock) and light.HeadTracker: a trusted bootstrap (or addFixedCommitteeRoot/addCommittee setup) at a random period, forged bootstraps, then for 2-6 periods genuine updates (random signer counts, finalized or not, duplicates, better/worse scores) and forged updates of 12 classes (too few signers, forged signer committee, wrong-period signer, tampered / short / long branch, forged next root, signature slot in another period, changed bitmask, junk signature, transplanted signature, version confusion, forged next committee) delivered through Validate-then-InsertUpdate in shuffled order with gaps and re-deliveries, signed heads through HeadTracker.ValidateOptimistic, re-initialisation checkpoints; mode 1 additionally contains an equivocating alternative chain and fixed-root changes to reach the reorg/rollback paths (security oracle off, structural oracle on). Non-trivial: at least two updates accepted with a state change and at least one delivery rejected in the scenario; distinct = distinct case line.",
+		Rule: "each case is one scenario over a fresh light.CommitteeChain (dummy test verifier, memory DB, simulated clock) and light.HeadTracker: a trusted bootstrap (or addFixedCommitteeRoot/addCommittee setup) at a random period, forged bootstraps, then for 2-6 periods genuine updates (random signer counts, finalized or not, duplicates, better/worse scores) and forged updates of 14 classes (finalized header of another period, bad finality branch, too few signers, forged signer committee, wrong-period signer, tampered / short / long branch, forged next root, signature slot in another period, changed bitmask, junk signature, transplanted signature, version confusion, forged next committee) delivered through Validate-then-InsertUpdate in shuffled order with gaps and re-deliveries, signed heads through HeadTracker.ValidateOptimistic, re-initialisation checkpoints; mode 1 additionally contains an equivocating alternative chain and fixed-root changes to reach the reorg/rollback paths (security oracle off, structural oracle on). Non-trivial: at least two updates accepted with a state change and at least one delivery rejected in the scenario; distinct = distinct case line.",
 		Gen: genAll,
 		Run: run,
 	})
